@@ -101,6 +101,14 @@ def _one(run, c, expect_ok, st):
     else:
         e = EdgeLandmark(vids, inf, est, value_of(c['off'], 0.25), offset_id=0)
     key = dict(cls=c['cls'], nv=nv, kinds=tuple(c['kinds']), est=c['est'], off=c['off'], info=tuple(c['info']), present=tuple(c['present']))
+    # History dimension: every other configuration re-uses an edge object that is ALREADY bound to the vertex objects of an earlier
+    # graph (same ids, different objects - also for ids the new vertex list lacks).  Construction must re-bind it to the listed vertices.
+    prebound = run.replayed % 2 == 1
+    if prebound:
+        e.vertices = [Vertex(vid, B.pose(c['kinds'][j], (5, 6, 7)[:B.DIM[c['kinds'][j]]], {'SE2': (1, 0, 1), 'SE3': (0, 0, 0, 1, 1)}.get(c['kinds'][j], ())))
+                      for j, vid in enumerate(vids)]
+        key['prebound'] = True
+        run.notes['prebound_edge_histories'] = run.notes.get('prebound_edge_histories', 0) + 1
     raised = None
     try:
         g = Graph([e], vlist)
